@@ -406,6 +406,41 @@ def sim_valid(spec, descs):
 # The real Evolver pipeline
 # ---------------------------------------------------------------------------
 
+#: ``Evolver.__init__`` and ``Evolver.evolve`` each do a full
+#: ``DatabaseState.rescan_tables()`` (~80 ms, nearly all of it re-parsing the
+#: never changing baseline tables).  When True, :func:`run_evolver` swaps in
+#: a rescan that takes the baseline tables from the harness cache and scans
+#: only the scratch tables -- the same shortcut (and the same result, see
+#: evo_harness_selftest) the harness uses for its own ``AppMutator`` runs.
+FAST_EVOLVER_SCAN = True
+
+
+class _fast_rescan(object):
+    def __init__(self, database):
+        self.database = database
+
+    def __enter__(self):
+        from django_evolution.db.state import DatabaseState
+
+        self.cls = DatabaseState
+        self.orig = DatabaseState.rescan_tables
+
+        if FAST_EVOLVER_SCAN:
+            # fill the harness' baseline cache with the REAL rescan first
+            H.scan_database_state(self.database)
+
+            def rescan_tables(state):
+                fresh = H.scan_database_state(state.db_name)
+
+                for table_name, data in fresh._tables.items():
+                    state._tables[table_name] = data
+
+            DatabaseState.rescan_tables = rescan_tables
+
+    def __exit__(self, *args):
+        self.cls.rescan_tables = self.orig
+
+
 def run_evolver(spec, evolutions, rows=None, database='default'):
     """Run evolutions through ``Evolver`` + ``EvolveAppTask`` (real pipeline).
 
@@ -488,7 +523,8 @@ def run_evolver(spec, evolutions, rows=None, database='default'):
                 phase = 'prepare'
 
                 try:
-                    with connection.execute_wrapper(recorder):
+                    with connection.execute_wrapper(recorder), \
+                            _fast_rescan(database):
                         evolver = Evolver(database_name=database)
                         task = EvolveAppTask(evolver, app=evo_test,
                                              evolutions=real_evolutions)
@@ -1197,6 +1233,31 @@ def sequence_features(muts, batched=True, spec=None):
     if batched and (type_fields & column_fields):
         feats['type_change_custom_column'] = True
 
+    # The optimiser drops RenameModel(x -> y) when y is deleted later in the
+    # batch and rewrites the DeleteModel to x: use the folded names.
+    folded_to = {}
+
+    for index, desc in enumerate(muts):
+        if desc[0] == 'RenameModel':
+            for later in muts[index + 1:]:
+                if later[0] == 'SQLMutation':
+                    break
+
+                if later[0] == 'DeleteModel' and later[1] == desc[2]:
+                    folded_to[desc[2]] = folded_to.get(desc[1], desc[1])
+                    break
+
+    if folded_to:
+        new_order = []
+
+        for desc, name in zip(muts, order):
+            if desc[0] == 'RenameModel' and desc[2] in folded_to:
+                continue
+
+            new_order.append(folded_to.get(name, name))
+
+        order = new_order
+
     if batched:
         feats['index_and_column_changed'] = sorted(
             f for (_m, f) in (index_fields & column_fields))
@@ -1245,7 +1306,14 @@ def classify_by_scenario(atom, ctx):
         kind in ('index-extra', 'index-missing', 'column-differs')):
         return 'optimizer-merges-changefield-across-type-change'
 
-    if kind == 'column-missing' and item[0] in feats.get('readded', []):
+    if kind == 'column-missing' and any(
+            item[0] in (name, name + '_id')
+            for name in feats.get('readded', [])):
+        return 'delete-and-readd-same-column-in-one-run'
+
+    if (kind in ('index-missing', 'foreign-key-missing') and any(
+            (name + '_id') in json.dumps(item)
+            for name in feats.get('readded', []))):
         return 'delete-and-readd-same-column-in-one-run'
 
     if (kind in ('index-missing', 'index-extra') and feats.get('readded')
@@ -1319,8 +1387,12 @@ def explain_schema_diff(diff, final_sig, rebuilt_tables, symmetric=False,
     causes = set()
 
     for atom in atoms:
-        atom['cause'] = (classify_by_scenario(atom, ctx) or
-                         classify_schema_atom(atom, ctx))
+        if atom['table'] in ctx.get('ut_deleted', []):
+            atom['cause'] = (classify_by_scenario(atom, ctx) or
+                             classify_schema_atom(atom, ctx))
+        else:
+            atom['cause'] = (classify_schema_atom(atom, ctx) or
+                             classify_by_scenario(atom, ctx))
 
         if (atom['cause'] is None and symmetric and
             atom['kind'].endswith('-extra')):
@@ -1492,9 +1564,18 @@ def _collect(suite_id, scenarios, known_list, rule, exhaustive, t0,
         if len(picked) >= MAX_FAILURES:
             break
 
+    witnesses = {}
+
+    for record in known:
+        tag = '%s|%s' % (record['clause'], record.get('known_id'))
+
+        if tag not in witnesses:
+            witnesses[tag] = record['inputs']
+
     return {
         'evaluations': evaluations,
         'distinct_nontrivial': len(nontrivial),
+        'known_witnesses': witnesses,
         'failures': picked,
         'failure_counts': failure_counts,
         'unknown_failures': len(unknown),
@@ -2129,7 +2210,12 @@ _EVALS['C03'] = eval_C03
 
 
 def _seq_scenarios(tier, seed, purpose):
-    """The C03 space of mutation sequences (also used by C18)."""
+    """The C03 space of mutation sequences (also used by C18).
+
+    Returns ``(sequences, tags, group descriptions, exhaustive)``; tag
+    'bulk' marks the big exhaustive length-4 block (the Evolver pipeline is
+    only run on a fraction of it).
+    """
     rng = random.Random(seed)
     quick = tier == 'quick'
     groups = []
@@ -2140,15 +2226,21 @@ def _seq_scenarios(tier, seed, purpose):
         randoms = [(60, 'core', (3, 6)), (60, 'full', (4, 12))]
     else:
         exhaustive = [('mini', 4), ('core', 2), ('full', 1)]
-        sampled = [('core', 3, 3000), ('full', 2, 2500)]
-        randoms = [(1200, 'core', (4, 12)), (1800, 'full', (4, 12))]
+        sampled = [('core', 3, 1500), ('full', 2, 1500)]
+        randoms = [(800, 'core', (4, 12)), (1200, 'full', (4, 12))]
 
     seqs = []
+    tags = {}
 
     for level, max_len in exhaustive:
         part = enum_sequences(SEQ_SPEC, level, max_len)
         groups.append('exhaustive %s<=%d: %d' % (level, max_len, len(part)))
         seqs.extend(part)
+
+        if max_len >= 4:
+            for seq in part:
+                if len(seq) >= 4:
+                    tags[json.dumps(seq, sort_keys=True)] = 'bulk'
 
     for level, max_len, count in sampled:
         part = [seq for seq in enum_sequences(SEQ_SPEC, level, max_len)
@@ -2166,8 +2258,10 @@ def _seq_scenarios(tier, seed, purpose):
         seqs.extend(part)
 
     seqs = _dedup(seqs)
+    tag_list = [tags.get(json.dumps(seq, sort_keys=True), '')
+                for seq in seqs]
 
-    return seqs, groups, bool(exhaustive)
+    return seqs, tag_list, groups, bool(exhaustive)
 
 
 KNOWN_C03 = []
@@ -2196,7 +2290,7 @@ RULE_C03 = (
 def suite_C03(tier='quick', seed=0):
     t0 = time.time()
     _setup()
-    seqs, groups, exhaustive = _seq_scenarios(tier, seed, 'C03')
+    seqs, tags, groups, exhaustive = _seq_scenarios(tier, seed, 'C03')
     scenarios = []
 
     for i, seq in enumerate(seqs):
@@ -2206,6 +2300,9 @@ def suite_C03(tier='quick', seed=0):
             # The Evolver pipeline costs ~4 plain runs: every 2nd scenario.
             sc['evolver'] = (i % 2 == 0)
             sc['evolver_parts'] = [1 if i % 4 else 2]
+        elif tags[i] == 'bulk':
+            sc['evolver'] = (i % 8 == 0)
+            sc['evolver_parts'] = [2]
         else:
             sc['evolver_parts'] = [1, 2] if len(seq) >= 2 else [1]
 
@@ -2421,6 +2518,10 @@ def _m2m_table(model_sig, fname, finfo):
             '%s_%s' % (model_sig['meta']['db_table'], fname))
 
 
+class TrackerMismatch(Exception):
+    pass
+
+
 class RowTracker(object):
     """Follows field identities through a mutation sequence (the oracle's
     own, independent bookkeeping of what must survive)."""
@@ -2528,8 +2629,7 @@ def check_rows(start_sig, final_sig, muts, start_rows, final_rows):
     # -- surviving tables keep their rows ---------------------------------
     for model, start_table in tracker.tables.items():
         if model not in final_sig:
-            raise RuntimeError('tracker/signature mismatch: model %s'
-                               % model)
+            raise TrackerMismatch('model %s' % model)
 
         final_table = final_sig[model]['meta']['db_table']
         before = table_rows(start_rows, start_table) or OrderedDict()
@@ -2549,8 +2649,7 @@ def check_rows(start_sig, final_sig, muts, start_rows, final_rows):
     # -- cell values --------------------------------------------------------
     for (model, fname), info in sorted(tracker.fields.items()):
         if model not in final_sig or fname not in final_sig[model]['fields']:
-            raise RuntimeError('tracker/signature mismatch: %s.%s'
-                               % (model, fname))
+            raise TrackerMismatch('%s.%s' % (model, fname))
 
         finfo = final_sig[model]['fields'][fname]
         final_table = final_sig[model]['meta']['db_table']
@@ -3180,10 +3279,13 @@ def _c01_scenarios(tier, seed):
     groups = ['catalogue+hinted: %d' % len(scenarios)]
 
     if tier == 'quick':
-        seqs = [s for s in enum_sequences(SEQ_SPEC, 'core', 2)
+        seqs = enum_sequences(SEQ_SPEC, 'core', 2)
+        full = [s for s in enum_sequences(SEQ_SPEC, 'full', 2)
                 if len(s) == 2]
-        seqs = rng.sample(seqs, 150)
-        groups.append('sample of core len 2 sequences: %d' % len(seqs))
+        full = rng.sample(full, 400)
+        groups.append('exhaustive core<=2: %d, sample of full len 2: %d'
+                      % (len(seqs), len(full)))
+        seqs = _dedup(seqs + full)
     else:
         seqs = enum_sequences(SEQ_SPEC, 'core', 2)
         full = enum_sequences(SEQ_SPEC, 'full', 2)
@@ -3202,7 +3304,7 @@ def _c01_scenarios(tier, seed):
         scenarios.append({'family': 'sequence', 'spec': SEQ_SPEC,
                           'rows': rows1, 'muts': seq, 'bystanders': ['Z']})
 
-        if tier != 'quick' and len(seq) >= 2:
+        if len(seq) >= 2 and (tier != 'quick' or len(scenarios) % 2):
             scenarios.append({'family': 'sequence-unbatched',
                               'spec': SEQ_SPEC, 'rows': rows1, 'muts': seq,
                               'bystanders': ['Z'], 'batched': False})
@@ -3368,8 +3470,18 @@ def eval_C02(sc):
         return out
 
     start = start_dump(spec, rows)
-    failures, checked = check_rows(result['start_sig'], result['final_sig'],
-                                   muts, start['rows'], result['rows'])
+
+    try:
+        failures, checked = check_rows(result['start_sig'],
+                                       result['final_sig'], muts,
+                                       start['rows'], result['rows'])
+    except TrackerMismatch as e:
+        # The final signature does not hold the models/fields the mutations
+        # describe (an optimiser defect, C03's business): the cells cannot
+        # be located reliably.
+        out['skipped'] = 'signature-diverges-from-mutations'
+        out['summary'] = {'detail': str(e)}
+        return out
     out['nontrivial'] = checked > 0
 
     context = {
@@ -3430,12 +3542,10 @@ def _c02_scenarios(tier, seed):
         perms = list(itertools.permutations(range(len(_INIT_ALPHABET)), k))
 
         if quick and k == 3:
-            # All orderings of every 3-subset that has >= 2 parameterised
-            # initial values would be 504; keep those touching >= 1
-            # ChangeField and >= 1 AddField (the order-sensitive ones).
+            # keep the 3-selections touching >= 1 ChangeField and >= 1
+            # AddField (the order-sensitive ones)
             perms = [p for p in perms
                      if any(i < 3 for i in p) and any(i >= 3 for i in p)]
-            perms = rng.sample(perms, 220)
         elif k == 4:
             perms = rng.sample(perms, 1200)
 
@@ -3493,10 +3603,11 @@ def _c02_scenarios(tier, seed):
 
     # -- sequences -----------------------------------------------------------
     if quick:
-        seqs = [s for s in enum_sequences(SEQ_SPEC, 'core', 2)]
-        seqs = rng.sample(seqs, 250)
+        seqs = enum_sequences(SEQ_SPEC, 'core', 2)
+        seqs += rng.sample([s for s in enum_sequences(SEQ_SPEC, 'full', 2)
+                            if len(s) == 2], 400)
         seqs += [random_sequence(SEQ_SPEC, 'full', rng.randint(3, 8), rng)
-                 for _i in range(80)]
+                 for _i in range(200)]
     else:
         seqs = enum_sequences(SEQ_SPEC, 'core', 2)
         seqs += rng.sample(enum_sequences(SEQ_SPEC, 'core', 3), 2500)
@@ -3709,7 +3820,7 @@ RULE_C18 = (
 def suite_C18(tier='quick', seed=0):
     t0 = time.time()
     _setup()
-    seqs, groups, exhaustive = _seq_scenarios(tier, seed, 'C18')
+    seqs, tags, groups, exhaustive = _seq_scenarios(tier, seed, 'C18')
     scenarios = []
 
     for i, seq in enumerate(seqs):
@@ -3717,6 +3828,8 @@ def suite_C18(tier='quick', seed=0):
 
         if tier == 'quick':
             sc['evolver'] = (i % 2 == 0)
+        elif tags[i] == 'bulk':
+            sc['evolver'] = (i % 8 == 0)
 
         scenarios.append(sc)
 
@@ -4223,6 +4336,48 @@ def initial_param_order_mismatch(spec, muts, batched=True):
     if not batched:
         return False
 
+    # What the optimiser does first: a RenameField whose new name is deleted
+    # later in the batch is dropped (the DeleteField then names the old
+    # name) -- it no longer separates two rebuilds.
+    muts = [list(desc) for desc in muts]
+    changed = True
+
+    while changed:
+        changed = False
+
+        for index, desc in enumerate(muts):
+            if desc[0] != 'RenameField':
+                continue
+
+            for later_index in range(index + 1, len(muts)):
+                later = muts[later_index]
+
+                if later[0] == 'SQLMutation':
+                    break
+
+                if later[0] in ('RenameField', 'AddField') and \
+                   later[1] == desc[1] and desc[3] in later[2:4]:
+                    break
+
+                if (later[0] == 'DeleteField' and later[1] == desc[1] and
+                    later[2] == desc[3]):
+                    muts[later_index] = ['DeleteField', desc[1], desc[2]]
+                    # mutations in between naming the new name now name
+                    # the old one
+                    for k in range(index + 1, later_index):
+                        if (muts[k][0] in ('ChangeField',) and
+                            muts[k][1] == desc[1] and
+                            muts[k][2] == desc[3]):
+                            muts[k] = [muts[k][0], muts[k][1], desc[2]] + \
+                                muts[k][3:]
+
+                    del muts[index]
+                    changed = True
+                    break
+
+            if changed:
+                break
+
     state = SeqState(spec, protected=())
     runs = {}      # model -> list of (op order item)
     sig_order = {}
@@ -4272,6 +4427,17 @@ def initial_param_order_mismatch(spec, muts, batched=True):
         # signature, i.e. a renamed field moves to the end.
         fields = sig_order.setdefault(
             model, list(state.models[model]['fields']))
+
+        folded = (kind == 'RenameField' and any(
+            item[0] == 'add' and item[1] == desc[2]
+            for item in runs.get(model, [])))
+
+        if (kind == 'RenameField' and not folded) or (
+                kind == 'ChangeField' and 'field_type' in desc[3]):
+            # not mergeable: the rebuild collected so far ends here (a
+            # RenameField of a field added in the same batch is folded
+            # into the AddField by the optimiser instead)
+            mismatch = flush(model) or mismatch
 
         if kind == 'AddField':
             fields.append(desc[2])
@@ -4638,3 +4804,73 @@ _NULL_ROUNDTRIP = {
 }
 KNOWN_C02.append(dict(_NULL_ROUNDTRIP, clause='null-replaced-by-initial'))
 KNOWN_C03.append(dict(_NULL_ROUNDTRIP, clause=_ROWS))
+
+KNOWN_C02.append({
+    'id': 'delete-and-readd-same-column-in-one-run',
+    'clause': 'column-present',
+    'match': 'see KNOWN_C01: DeleteField(m, f) and a later AddField / '
+             'RenameField producing f again in the same run; the re-added '
+             '(nullable) column does not exist at all',
+    'what': 'see KNOWN_C01',
+    'pred': lambda sc, ob: ob.get('column') in sequence_features(
+        sc['muts'], batched=sc.get('batched', True),
+        spec=sc['spec'])['readded'],
+})
+
+
+KNOWN_C02.append({
+    'id': 'delete-and-readd-same-column-in-one-run',
+    'clause': 'added-column-initial',
+    'match': 'see KNOWN_C01, followed by another rebuild of the table in '
+             'the same run: the re-added column holds its own NAME as a '
+             'string in every row',
+    'what': 'the first (merged) rebuild loses the re-added column, the '
+            'next rebuild SELECTs "f" from a table without column f and '
+            'SQLite reads the double-quoted name as a string literal',
+    'pred': lambda sc, ob: ob.get('column') in sequence_features(
+        sc['muts'], batched=sc.get('batched', True),
+        spec=sc['spec'])['readded'],
+})
+
+
+def _readded_pred(with_signature):
+    def pred(scenario, observed):
+        feats = sequence_features(scenario['muts'], spec=scenario['spec'])
+
+        if not feats['readded']:
+            return False
+
+        signature_failed = any(
+            c.endswith('same-signature')
+            for c in observed.get('also_failed', []))
+
+        return signature_failed == with_signature
+
+    return pred
+
+
+KNOWN_C03.extend([
+    {
+        'id': 'optimizer-confuses-reused-field-names',
+        'clause': ['batched-same-signature', 'evolver-same-signature',
+                   'batched-same-schema', 'evolver-same-schema',
+                   'batched-same-rows', 'evolver-same-rows'],
+        'match': 'a field name is deleted and, later in the same batch, '
+                 'added again or made the target of a RenameField (and '
+                 'possibly deleted again); the final SIGNATURE differs',
+        'what': '_process_mutation_batch keys its bookkeeping '
+                '(deleted_fields / noop_fields / renames) on (model, field '
+                'name) over the whole batch, so a later use of the name is '
+                'matched with the earlier DeleteField / AddField of the '
+                'previous field of that name',
+        'pred': _readded_pred(True),
+    },
+    {
+        'id': 'delete-and-readd-same-column-in-one-run',
+        'clause': ['batched-same-rows', 'evolver-same-rows'],
+        'match': 'see KNOWN_C01 (signature equal, the re-added column is '
+                 'missing or filled with its own name)',
+        'what': 'see KNOWN_C01',
+        'pred': _readded_pred(False),
+    },
+])
